@@ -39,6 +39,10 @@ Failing(ev) ==
      \o (IF /\ (okA /\ acc) => ev.reader_mids = Mids(Readers(ev.docs))
             /\ ev.sorted_mids = Mids(SortByMid(ev.docs))       \* sorted(MosFile objects): same numeric order
          THEN <<>> ELSE <<"coll_order">>)
+     \* C11: after acceptance the readers are exactly the documents other than the roCreate (in whatever order)
+     \o (IF (okA /\ acc) => /\ Len(ev.reader_mids) = Len(Readers(ev.docs))
+                            /\ SeqRange(ev.reader_mids) = SeqRange(Mids(Readers(ev.docs)))
+         THEN <<>> ELSE <<"coll_members">>)
      \o (IF (okA /\ acc /\ ev.merged) =>
               /\ [k \in DOMAIN ev.steps |-> ev.steps[k].mid] = Attempted(ev.docs, ev.strict)
               /\ \A k \in DOMAIN ev.steps :
